@@ -248,7 +248,7 @@ Case generate() {
   using namespace rc;
   Case c;
   c.f.assign(F_COUNT, 0);
-  int cls    = *gen::weightedElement<int>({{186, 0}, {12, 1}, {2, 2}}); // small, big, huge
+  int cls    = *gen::weightedElement<int>({{190, 0}, {9, 1}, {1, 2}}); // small, big, huge
   c[F_SRC]   = *gen::weightedElement<int>({{4, 0}, {2, 1}, {4, 2}});
   c[F_WIDTH] = *gen::weightedElement<int>({{3, 0}, {4, 1}, {4, 2}, {3, 3}, {1, 4}, {1, 5}});
   if (c[F_WIDTH] == 4 && excluded(K_W1)) { // 1-byte edge data: avoided altogether
@@ -272,6 +272,8 @@ Case generate() {
   c[F_PERM]    = *uni(0, 4);
   c[F_PSEED]   = *uni(0, 1 << 16);
   c[F_READERS] = *gen::weightedElement<int>({{3, 0}, {1, 1}}) ? *uni(1, R_ALL + 1) : R_ALL;
+  if (cls == 2) // 2 MiB files: sub-range reads plus a few of the other readers
+    c[F_READERS] = R_PART | (1 << *uni(0, 10)) | (1 << *uni(0, 10));
   int ne       = n == 0 ? 0 : *gen::inRange(0, cls == 0 ? 70 : 24);
   int64_t ps = 0, pd = 0;
   for (int i = 0; i < ne; ++i) {
@@ -388,10 +390,12 @@ static Bytes to_bytes(const void* p) {
   return b;
 }
 
-// nodes whose adjacency is read back (all of them unless the graph is huge)
+// nodes whose adjacency is read back: all of them unless the graph is huge
+// or the part is one of many large parts of a big graph
 static std::vector<uint64_t> nodes_to_check(const Built& B, uint64_t a, uint64_t b) {
   std::vector<uint64_t> r;
-  if (b - a <= 3000) {
+  bool whole = a == 0 && b == B.M.n;
+  if (whole ? b - a <= 3000 : b - a <= 256) {
     for (uint64_t i = a; i < b; ++i)
       r.push_back(i);
     return r;
@@ -617,9 +621,9 @@ static std::vector<Range> ranges_of(const Case& c, const Built& B) {
     std::set<uint64_t> ks = {0, 1, 2, n - 2, n - 1, n};
     for (uint64_t i = 0; i < 10; ++i)
       ks.insert(prf((uint64_t)c[F_PSEED], i, 99) % (n + 1));
-    for (auto t : B.tail_nodes) {
-      ks.insert(t);
-      ks.insert(t + 1);
+    for (size_t i = 0; i < B.tail_nodes.size() && i < 8; ++i) {
+      ks.insert(B.tail_nodes[i]);
+      ks.insert(B.tail_nodes[i] + 1);
     }
     for (auto k : ks) {
       s.insert({0, k});
@@ -696,7 +700,7 @@ static void check_part_from_file(const Case& c, const Built& B, const std::strin
              (ull)a, (ull)b, (ull)M.prefix[a], (ull)M.prefix[b], (ull)M.n, (ull)M.m, M.version, st);
     }
     GG::FileGraph fg;
-    do_part_from_file(fg, path, M, a, b, idx % 7 == 3);
+    do_part_from_file(fg, path, M, a, b, getenv("NONUMA") ? false : idx % 7 == 3);
     check_fg<E>("partFromFile", fg, B, M, a, b, true);
     if (idx % 3 == 0 || ranges.size() <= 24) { // a copy of a partially loaded graph is the same part
       uint64_t pe = M.prefix[b] - M.prefix[a];
@@ -731,10 +735,14 @@ static void check_oc(const Built& B, const std::string& path, const std::vector<
     SCHECK(*oc.edge_begin(N) == M.prefix[N] && *oc.edge_end(N) == M.prefix[N + 1], sj, "edge-range",
            "node %llu: edges [%llu,%llu), expected [%llu,%llu)", (ull)N, (ull)*oc.edge_begin(N), (ull)*oc.edge_end(N), (ull)M.prefix[N],
            (ull)M.prefix[N + 1]);
+  size_t idx = 0;
   for (auto& r : ranges) {
     uint64_t a = r.first, b = r.second;
     if (a == b)
       continue; // a segment is loaded for a non-empty node range
+    // each segment maps 2 x (2 MiB + data): all ranges of tiny graphs, else a sample
+    if (ranges.size() > 40 && prf(M.n, M.m, ++idx) % ranges.size() >= 24)
+      continue;
     SegGuard s(oc);
     oc.load(s.seg, oc.edge_begin(a), oc.edge_end(b - 1), width_of<E>());
     for (uint64_t e = M.prefix[a]; e < M.prefix[b]; ++e) {
@@ -788,6 +796,14 @@ static void check_offline(const Built& B, const std::string& path) {
     }
     compare_edges(sj, N, got, M.node(N), M.deg(N), true, M.w);
   }
+  // the class is movable: the moved-to object reads the same file
+  GG::OfflineGraph moved(std::move(*og));
+  SCHECK(moved.size() == M.n && moved.sizeEdges() == M.m, sj, "move", "moved-to graph: size() = %zu, sizeEdges() = %zu", moved.size(),
+         moved.sizeEdges());
+  for (uint64_t e = 0; e < M.m && e < 4; ++e)
+    SCHECK(moved.getEdgeDst(GG::OfflineGraph::edge_iterator(e)) == M.flat[e].dst, sj, "move",
+           "moved-to graph: edge %llu has destination %llu, expected %llu", (ull)e,
+           (ull)moved.getEdgeDst(GG::OfflineGraph::edge_iterator(e)), (ull)M.flat[e].dst);
 }
 
 // ----------------------------------------------------------- BufferedGraph
@@ -966,6 +982,14 @@ static void run_typed(const Case& c, const Built& B) {
     GG::FileGraph fg;
     fg.fromFile(f1.path);
     check_fg<E>("fromFile", fg, B, M, 0, M.n, true);
+    fg.initNodeDegrees(); // degree cache (whole graphs)
+    for (uint64_t N : nodes_to_check(B, 0, M.n))
+      SCHECK(fg.getDegree((uint32_t)N) == M.deg(N), "fromFile", "degree", "getDegree(%llu) = %llu after initNodeDegrees(), expected %llu",
+             (ull)N, (ull)fg.getDegree((uint32_t)N), (ull)M.deg(N));
+    fg.toFile(f2.path); // writes the mapping back: the same bytes
+    std::vector<unsigned char> again = slurp("fromFile-toFile", f2.path);
+    SCHECK(again == bytes, "fromFile-toFile", "bytes", "toFile() of a graph loaded with fromFile() wrote %zu bytes, the file has %zu%s",
+           again.size(), bytes.size(), again.size() == bytes.size() ? " (content differs)" : "");
   }
   if ((readers & R_INTERLEAVED) && !memblocked) {
     GG::FileGraph fg;
